@@ -404,12 +404,14 @@ def unit_writer_options(ctx):
     dtype = ctx.choose("dtype", ["float64", "complex128", "int64"])
     opts = ctx.choose("options", WRITER_OPTIONS)
     ext = ctx.choose("extension", [".h5", ".hdf5"])
+    # "unit (including none)": the empty string is a unit too (dimensionless), and it is not None
+    unit = ctx.choose("unit", ["A/m", "", None])
     n = SHAPES[ndim]
     sub = {"zeta": df.Region(p1=[0.0] * ndim, p2=[2.5e-9 * (1 if a == 0 else k) for a, k in enumerate(n)])}
     mesh = df.Mesh(region=df.Region(p1=[0.0] * ndim, p2=[float(k) * 2.5e-9 for k in n]), n=n, subregions=sub)
     f = df.Field(mesh, nvdim=nv, value=_values("tracer", dtype, n, nv, ctx.seed) / (1 if dtype == "int64" else 7.0), dtype=np.dtype(dtype),
-                 unit="A/m", valid=C.coded_mask(n, 1))
-    K = {"mesh": ("ndim",), "sub": ("ndim",), "field": ("ndim", "nvdim"), "labels": ("nvdim",), "unit": (),
+                 unit=unit, valid=C.coded_mask(n, 1))
+    K = {"mesh": ("ndim",), "sub": ("ndim",), "field": ("ndim", "nvdim"), "labels": ("nvdim",), "unit": ("unit",),
          "data": ("ndim", "nvdim", "dtype", "options"), "refuse": ("options",)}
     with _Tmp() as d:
         path = os.path.join(d, "f" + ext)
